@@ -40,11 +40,21 @@ def load_claims():
     for f in sorted(glob.glob(os.path.join(HERE, "simcheck", "props", "c[0-9]*.py"))):
         name = os.path.basename(f)[:-3]
         mod = importlib.import_module(f"simcheck.props.{name}")
+        if mod.ID in PLANNED:
+            continue  # module exists but has not passed the gates of DESIGN.md §1.3: not claimed
         m = mod.MANIFEST
         claim(mod.ID, m["engine"], m["technique"], m["text"], m["note"], m["ref"], mod.LEVEL)
 
 
-PLANNED = {}
+_UNGATED = ("simulation target per DESIGN.md §3; simcheck/props/{m}.py exists but has not been through the "
+            "determinism, sensitivity-mutant and multi-seed gates of DESIGN.md §1.3, so it is not claimed and nothing "
+            "it reports is offered as evidence (DESIGN.md §8.1)")
+PLANNED = {
+    "C21": _UNGATED.format(m="c21"),
+    "C22": _UNGATED.format(m="c22"),
+    "C26": _UNGATED.format(m="c26"),
+    "C31": "simulation target per DESIGN.md §3 (E5 in-process vs. subprocess replica) but its check is not built; not claimed",
+}
 
 
 def main():
@@ -86,6 +96,13 @@ def main():
         "engines": [
             {"name": "E2-executor", "path": "simcheck/execsim.py", "serves_properties": ["C32", "C05", "C30"],
              "kind_free_text": "real TestCaseExecutor/ExecutionTracer threads stepped by a seeded baton scheduler (simcheck/sched.py) on a simulated clock"},
+            {"name": "E1-pipeline", "path": "simcheck/pipeline.py",
+             "serves_properties": ["C10", "C13", "C14", "C16", "C17", "C18", "C19"],
+             "kind_free_text": "generator.run_pynguin end to end in a forked child: SimClock on the time module, instrumented randomness.RNG (draw log, buggified boundary draws), executor/exporter threads under the time-driven baton scheduler, content-keyed injected execution timeouts, monitors at iteration and phase boundaries"},
+            {"name": "E3-master-worker", "path": "simcheck/props/c33.py", "serves_properties": ["C33"],
+             "kind_free_text": "master/worker restart protocol on a fake transport and simulated clock plus real forked workers with injected crashes"},
+            {"name": "E4-stateful", "path": "simcheck/opsenv.py", "serves_properties": ["C12", "C15", "C29", "C34"],
+             "kind_free_text": "seeded operation-and-fault histories on real components against a small reference model, ddmin-minimised"},
         ],
         "checks": checks,
         "not_applicable": na,
